@@ -452,6 +452,7 @@ def rel_diff(a, b, tables=CORE_TABLES, skip_cols=()):
                             list(b[t][0].vals) if b[t] else [])
                 if c not in IGNORED_COLS and c not in skip_cols and
                 not (c == 'id' and t in ('allocations', 'inventories',
+                                         'consumers',
                                          'resource_provider_traits',
                                          'resource_provider_aggregates'))]
         for k in set(ka) | set(kb):
